@@ -191,7 +191,7 @@ theorem c14_pruned_eq_unpruned (fs : List Frac) (hok : ∀ f, f ∈ fs → FracO
 
 /-- **C14, fetch path.**  Every fraction that holds a requested ID survives both filters of `groupIDsByFraction`
 (`FilterInRange(minMID, maxMID)` over the request, then `Contains(id.MID)`), whatever other IDs the request
-holds. -/
+holds.  `fs` is the same immutable list for every batch of a request: see `c14_x_filterInRange_fresh_list`. -/
 theorem c14_fetch_candidates (fs : List Frac) (hok : ∀ f, f ∈ fs → FracOK f) (minMID maxMID : Nat) (id : Nat × Nat)
     (h1 : minMID ≤ id.1) (h2 : id.1 ≤ maxMID) (hmax : maxMID < 18446744073709551616)
     (f : Frac) (hf : f ∈ holders fs id) : f ∈ candidates fs minMID maxMID id := by
@@ -460,5 +460,16 @@ theorem c14_x_pruning_sites :
     groupIDsFilter = ["fracsIn.FilterInRange(minMID, maxMID)", "f.Contains(id.ID.MID)", "f.Contains(id.ID.MID)"] ∧
     activeContains = ["f.Info().IsIntersecting(id, id)"] ∧ activeIsIntersecting = ["f.Info().IsIntersecting(from, to)"] ∧
     sealedContains = ["f.info.IsIntersecting(id, id)"] ∧ sealedIsIntersecting = ["f.info.IsIntersecting(from, to)"] := by decide
+
+/-- **the pruned list is a fresh list, the input is never written.**  `filterInRange` / `candidates` are pure functions
+of the fraction list; the code may rely on that only because `FilterInRange` builds its result with `make` (never
+the receiver or a reslice of it) and `groupIDsByFraction` writes only into the list `FilterInRange` returned.
+`storeapi.docsStream` keeps ONE fraction list for a whole Fetch request and groups every batch against it, so
+`c14_fetch_candidates` applies to every batch only under this fact. -/
+theorem c14_x_filterInRange_fresh_list :
+    filterInRangeStmts = ["res := make(List, 0)",
+      "for _, f := range l { if f.IsIntersecting(from, to) { res = append(res, f) } }", "return res"] ∧
+    groupIDsListWrites = ["fracsOut := fracsIn.FilterInRange(minMID, maxMID)",
+      "idsByFracs := make([][]seq.ID, 0, len(fracsOut))", "fracsOut[l] = f", "return fracsOut[:l], idsByFracs"] := by decide
 
 end SV.Props.C14
